@@ -27,9 +27,11 @@ def gen_workspace(rng, *, max_channels=3, max_samples=3, max_bins=4, mods=None,
     shapefactor_bins = None
     extra_nf = f"{name_prefix}k_bkg"
     have_mu = False
+    # channel names are NOT in sorted order in general (pyhf sorts internally; order bugs hide otherwise)
+    cnames = rng.sample(["ch0", "ch1", "ch2", "SR", "CR", "zlast", "Afirst"], nchan) if rng.random() < 0.6 else [f"ch{ci}" for ci in range(nchan)]
     for ci in range(nchan):
         nb = rng.randint(1, max_bins)
-        cname = f"{name_prefix}ch{ci}"
+        cname = f"{name_prefix}{cnames[ci]}"
         nsamp = rng.randint(1, max_samples)
         snames = ["signal"] + rng.sample(SAMPLE_POOL[1:], nsamp - 1) if (ci == 0 or rng.random() < 0.6) else rng.sample(SAMPLE_POOL[1:], min(nsamp, 3))
         samples = []
@@ -91,6 +93,7 @@ def gen_workspace(rng, *, max_channels=3, max_samples=3, max_bins=4, mods=None,
         tot = [sum(s["data"][b] for s in c["samples"]) for b in range(nb)]
         observations.append({"name": c["name"], "data": [float(max(0, round(t * rng.uniform(0.7, 1.3)))) for t in tot]})
 
+    rng.shuffle(observations)
     measurements = []
     nmeas = rng.randint(*n_meas)
     # settings that the XML format stores once per workspace are identical across measurements
@@ -100,6 +103,11 @@ def gen_workspace(rng, *, max_channels=3, max_samples=3, max_bins=4, mods=None,
             lo = r3(rng, 0.0, 0.5) if n != "mu" else 0.0
             hi = r3(rng, 5.0, 12.0)
             nf_cfg[n] = {"name": n, "bounds": [[lo, hi]], "inits": [r3(rng, 0.8, 1.5)]}
+            r = rng.random()
+            if r < 0.15:
+                del nf_cfg[n]["bounds"]     # only an initial value configured
+            elif r < 0.3:
+                del nf_cfg[n]["inits"]      # only bounds configured
     lumi_cfg = None
     if ("lumi", "lumi") in used:
         lv = r3(rng, 0.8, 2.5) if rng.random() < 0.7 else 1.0
